@@ -10,6 +10,7 @@ import (
 	"net"
 	"reflect"
 	"regexp"
+	"runtime"
 	"strconv"
 	"strings"
 	"sync"
@@ -171,7 +172,12 @@ func init() {
 						go func() {
 							defer done.Done()
 							ready.Add(1)
-							for ready.Load() < int32(g) { // spin barrier: all first allocations start together
+							// barrier: all first allocations start together — a tight spin (so that they really
+							// collide), bounded, then yielding (a pure spin starves an overloaded machine)
+							for spins := 0; ready.Load() < int32(g); spins++ {
+								if spins > 50000 {
+									runtime.Gosched()
+								}
 							}
 							ids[i] = c.NextStreamID()
 						}()
@@ -271,7 +277,7 @@ func init() {
 			r := newRngMixed(seed)
 			reps := 1
 			if tier == "thorough" {
-				reps = 25
+				reps = 10
 			}
 			for rep := 0; rep < reps; rep++ {
 				for _, g := range []int{1, 2, 3, 8, 16, 64} {
